@@ -5,6 +5,8 @@ package os
 import (
 	"io/fs"
 	realos "os"
+	"strconv"
+	"time"
 
 	"github.com/josephburnett/jd/v2/verif/simos"
 )
@@ -12,7 +14,7 @@ import (
 // Args is kept current by simos when a simulated process starts.
 var Args []string
 
-func init() { simos.OnArgs(func(a []string) { Args = a }) }
+func init() { simos.OnArgs(func(a []string) { Args = a; tempSeq = 0 }) }
 
 type (
 	FileMode     = fs.FileMode
@@ -65,6 +67,69 @@ func (f *File) WriteString(s string) (int, error) { return f.h.Write([]byte(s)) 
 func (f *File) Close() error                      { return f.h.Close() }
 func (f *File) Name() string                      { return f.h.Name }
 func (f *File) Sync() error                       { return nil }
+func (f *File) Truncate(size int64) error         { return f.h.Truncate(size) }
+func (f *File) Fd() uintptr                       { return ^uintptr(0) }
+func (f *File) Stat() (FileInfo, error) {
+	i, err := f.h.Stat()
+	if err != nil {
+		return nil, err
+	}
+	return info{i}, nil
+}
+
+type info struct{ i simos.Info }
+
+func (x info) Name() string { return x.i.Name }
+func (x info) Size() int64  { return x.i.Size }
+func (x info) Mode() FileMode {
+	switch {
+	case x.i.Dir:
+		return fs.ModeDir | 0755
+	case x.i.Pipe:
+		return fs.ModeNamedPipe | 0600
+	}
+	return 0644
+}
+func (x info) ModTime() time.Time { return time.Unix(946684800+x.i.Clock, 0).UTC() }
+func (x info) IsDir() bool        { return x.i.Dir }
+func (x info) Sys() any           { return nil }
+
+const (
+	ModeDir        = fs.ModeDir
+	ModeNamedPipe  = fs.ModeNamedPipe
+	ModeCharDevice = fs.ModeCharDevice
+	ModeType       = fs.ModeType
+)
+
+func Stat(name string) (FileInfo, error) {
+	i, err := simos.Stat(name)
+	if err != nil {
+		return nil, err
+	}
+	return info{i}, nil
+}
+func Lstat(name string) (FileInfo, error)       { return Stat(name) }
+func Remove(name string) error                  { return simos.Remove(name) }
+func Rename(oldpath, newpath string) error      { return simos.Rename(oldpath, newpath) }
+func Mkdir(name string, perm FileMode) error    { return simos.Mkdir(name) }
+func MkdirAll(path string, perm FileMode) error { return simos.Mkdir(path) }
+func Chmod(name string, mode FileMode) error    { return nil }
+func TempDir() string                           { return "." }
+
+var tempSeq int
+
+// CreateTemp creates a new file with a deterministic name.
+func CreateTemp(dir, pattern string) (*File, error) {
+	tempSeq++
+	if dir == "" {
+		dir = "."
+	}
+	name := pattern + strconv.Itoa(tempSeq)
+	if dir != "." {
+		name = dir + "/" + name
+	}
+	return OpenFile(name, O_RDWR|O_CREATE|O_EXCL, 0600)
+}
 
 func Exit(code int) { simos.Exit(code) }
 
